@@ -205,3 +205,51 @@ package lua
 //@ noraise
 //@ ensures  result == 0
 //@ modifies nothing
+
+// ---------------------------------------------------------------------------
+// Calls (C02): frame set-up. lb0/na/np/nr are the entry values of LocalBase, NArgs, NumParameters, NumUsedRegisters.
+// The same contract is checked for the method and for every go-inline copy (pushCallFrame, OP_CALL, OP_TAILCALL).
+// ---------------------------------------------------------------------------
+
+//@ define cfNp(cf *callFrame) int = cf.Fn.Proto.NumParameters
+//@ define cfNr(cf *callFrame) int = cf.Fn.Proto.NumUsedRegisters
+//@ define cfVararg(cf *callFrame) bool = (cf.Fn.Proto.IsVarArg & 2) != 0
+//@ define cfNeedsArg(cf *callFrame) bool = (cf.Fn.Proto.IsVarArg & 4) != 0
+
+//@ trusted (*LTable).RawSetString [C09]
+//@ assume RawSetString touches only the hash part of the table (verified under C09 when the hash part is under contract)
+//@ noraise
+//@ ensures  arrid(tb.keys) == old(arrid(tb.keys)) || fresh(tb.keys)
+//@ modifies tb.dict, tb.strdict, tb.keys, tb.k2i, tb.keys[*], tb.dict{*}, tb.strdict{*}, tb.k2i{*}
+
+//@ func (*LState).initCallFrame [C02 C10]
+//@ requires ls != nil && ls.reg != nil && Inv_reg(ls.reg) && cf != nil && cf.Fn != nil && (!cf.Fn.IsG ==> cf.Fn.Proto != nil)
+//@ requires 0 <= cf.LocalBase && 0 <= cf.NArgs && cf.LocalBase + cf.NArgs <= ls.reg.top
+//@ requires forall k int :: cf.LocalBase <= k && k < cf.LocalBase + cf.NArgs ==> ls.reg.array[k] != nil
+//@ ensures  Inv_reg(ls.reg) && ls.reg == old(ls.reg) && cf.Fn == old(cf.Fn) && cf.NArgs == old(cf.NArgs) && cf.Base == old(cf.Base) && cf.ReturnBase == old(cf.ReturnBase) && cf.NRet == old(cf.NRet) && cf.Pc == old(cf.Pc) && cf.Parent == old(cf.Parent)
+//@ ensures  "below": forall k int :: 0 <= k && k < old(cf.LocalBase) ==> ls.reg.array[k] == old(ls.reg.array[k])
+//@ ensures  "host": old(cf.Fn.IsG) ==> cf.LocalBase == old(cf.LocalBase) && ls.reg.top == old(cf.LocalBase + cf.NArgs) && (forall k int :: 0 <= k && k < ls.reg.top ==> ls.reg.array[k] == old(ls.reg.array[k]))
+//@ ensures  "fixed": old(!cf.Fn.IsG && !cfVararg(cf)) ==> cf.LocalBase == old(cf.LocalBase) && ls.reg.top == old(cf.LocalBase + cfNr(cf)) && (forall k int :: old(cf.LocalBase) <= k && k < old(cf.LocalBase + min(cf.NArgs, cfNp(cf))) ==> ls.reg.array[k] == old(ls.reg.array[k])) && (forall k int :: old(cf.LocalBase + min(cf.NArgs, cfNp(cf))) <= k && k < old(cf.LocalBase + cfNr(cf)) ==> ls.reg.array[k] == LNil)
+//@ ensures  "vararg-base": old(!cf.Fn.IsG && cfVararg(cf)) ==> cf.LocalBase == old(cf.LocalBase + max(cf.NArgs, cfNp(cf))) && ls.reg.top == cf.LocalBase + old(cfNr(cf))
+//@ ensures  "vararg-params": old(!cf.Fn.IsG && cfVararg(cf)) ==> (forall k int :: cf.LocalBase <= k && k < cf.LocalBase + old(min(cf.NArgs, cfNp(cf))) ==> ls.reg.array[k] == old(ls.reg.array[k - max(cf.NArgs, cfNp(cf))])) && (forall k int :: cf.LocalBase + old(min(cf.NArgs, cfNp(cf))) <= k && k < cf.LocalBase + old(cfNp(cf)) ==> ls.reg.array[k] == LNil)
+//@ ensures  "vararg-extra": old(!cf.Fn.IsG && cfVararg(cf)) ==> (forall k int :: old(cf.LocalBase) <= k && k < old(cf.LocalBase + cfNp(cf)) ==> ls.reg.array[k] == LNil) && (forall k int :: old(cf.LocalBase + cfNp(cf)) <= k && k < old(cf.LocalBase + cf.NArgs) ==> ls.reg.array[k] == old(ls.reg.array[k]))
+//@ cut@"nvarargs := nargs - np" the vararg relocation and the compatibility arg table are not verified yet (listed as unverified region)
+//@ modifies ls.reg.array, ls.reg.top, ls.reg.array[*], cf.LocalBase
+//@ loop 1 invariant Inv_reg(ls.reg) && ls.reg == old(ls.reg) && nargs <= i && i <= np && nargs == old(cf.NArgs) && np == old(cfNp(cf)) && proto == old(cf.Fn.Proto) && cf.LocalBase == old(cf.LocalBase) && newSize == cf.LocalBase + np && cap(ls.reg.array) >= newSize && ls.reg.top == old(ls.reg.top) && arrSameOrFresh(ls.reg)
+//@ loop 1 invariant forall k int :: 0 <= k && k < old(ls.reg.top) && !(cf.LocalBase + nargs <= k && k < cf.LocalBase + i) ==> ls.reg.array[k] == old(ls.reg.array[k])
+//@ loop 1 invariant forall k int :: cf.LocalBase + nargs <= k && k < cf.LocalBase + i ==> ls.reg.array[k] == LNil
+//@ loop 2 invariant Inv_reg(ls.reg) && ls.reg == old(ls.reg) && np <= i && (i <= nargs || i == np) && np == old(cfNp(cf)) && nargs == old(max(max(cf.NArgs, cfNp(cf)), cfNr(cf))) && proto == old(cf.Fn.Proto) && cf.LocalBase == old(cf.LocalBase) && cap(ls.reg.array) >= cf.LocalBase + nargs && ls.reg.top == old(ite(cf.NArgs < cfNp(cf), cf.LocalBase + cfNp(cf), ls.reg.top)) && arrSameOrFresh(ls.reg)
+//@ loop 2 invariant forall k int :: 0 <= k && k < old(cf.LocalBase + min(cf.NArgs, cfNp(cf))) ==> ls.reg.array[k] == old(ls.reg.array[k])
+//@ loop 2 invariant forall k int :: old(cf.LocalBase + min(cf.NArgs, cfNp(cf))) <= k && k < cf.LocalBase + i && k < cf.LocalBase + nargs ==> (np <= k - cf.LocalBase || k - cf.LocalBase < np) && (k < cf.LocalBase + np ==> ls.reg.array[k] == ite(k < old(cf.LocalBase + cf.NArgs), old(ls.reg.array[k]), LNil)) && (k >= cf.LocalBase + np ==> ls.reg.array[k] == LNil)
+
+//@ define cfValid(ls *LState, cf callFrame) bool = 0 <= cf.LocalBase && 0 <= cf.NArgs && cf.LocalBase + cf.NArgs <= ls.reg.top && (cf.Fn != nil && !cf.Fn.IsG ==> cf.Fn.Proto != nil) && (forall k int :: cf.LocalBase <= k && k < cf.LocalBase + cf.NArgs ==> ls.reg.array[k] != nil)
+
+// pushCallFrame: a non-function or a full call stack is a Lua error raised BEFORE the frame is pushed, so
+// callFrameStack.Push's precondition holds and its Go panic is unreachable (C12); the frame set-up is initCallFrame's.
+//@ func (*LState).pushCallFrame [C02 C10 C12]
+//@ requires ls != nil && ls.reg != nil && Inv_reg(ls.reg) && ls.stack != nil && $inv(ls.stack) && cfValid(ls, cf) && fn != nil && !meta
+//@ cut@"nvarargs := nargs - np" the vararg relocation of the inlined initCallFrame is not verified yet
+//@ ensures  $inv(ls.stack) && $sp(ls.stack) == old($sp(ls.stack)) + 1 && ls.currentFrame == $frame(ls.stack, old($sp(ls.stack))) && ls.currentFrame != nil
+//@ ensures  ls.currentFrame.Fn == cf.Fn && ls.currentFrame.Fn != nil && ls.currentFrame.Parent == cf.Parent && ls.currentFrame.Base == cf.Base && ls.currentFrame.ReturnBase == cf.ReturnBase && ls.currentFrame.NRet == cf.NRet && ls.currentFrame.NArgs == cf.NArgs && ls.currentFrame.Pc == cf.Pc && ls.currentFrame.TailCall == cf.TailCall && ls.currentFrame.Idx == old($sp(ls.stack))
+//@ ensures  forall i int :: 0 <= i && i < old($sp(ls.stack)) ==> $frame(ls.stack, i) == old($frame(ls.stack, i)) && unchanged($frame(ls.stack, i))
+//@ modifies ghost(ls.stack), type callFrame.*, ls.currentFrame, ls.reg.array, ls.reg.top, ls.reg.array[*]
